@@ -78,6 +78,21 @@ async fn query_nameserver_udp_notimeout(
         return None;
     }
 
+    #[cfg(resolved_verif)]
+    if let Some(transport) = crate::verif::transport::current() {
+        let reply = transport
+            .exchange(
+                crate::verif::transport::Proto::Udp,
+                address,
+                serialised_request,
+            )
+            .await?;
+        let mut buf = vec![0u8; 512];
+        let n = std::cmp::min(reply.len(), buf.len());
+        buf[..n].copy_from_slice(&reply[..n]);
+        return Message::from_octets(&buf).ok();
+    }
+
     let mut buf = vec![0u8; 512];
     let sock = UdpSocket::bind("0.0.0.0:0").await.ok()?;
     sock.connect(address).await.ok()?;
@@ -109,6 +124,18 @@ async fn query_nameserver_tcp_notimeout(
     address: SocketAddr,
     serialised_request: &mut [u8],
 ) -> Option<Message> {
+    #[cfg(resolved_verif)]
+    if let Some(transport) = crate::verif::transport::current() {
+        let reply = transport
+            .exchange(
+                crate::verif::transport::Proto::Tcp,
+                address,
+                serialised_request,
+            )
+            .await?;
+        return Message::from_octets(&reply).ok();
+    }
+
     let mut stream = TcpStream::connect(address).await.ok()?;
     send_tcp_bytes(&mut stream, serialised_request).await.ok()?;
     let bytes = read_tcp_bytes(&mut stream).await.ok()?;
